@@ -71,3 +71,60 @@ Proof.
   intros Hn Hl. destruct (fsum_finite l 0 fnzero) as [F _]; auto; try lia.
   unfold R_. cbn. rewrite Rabs_R0. lra.
 Qed.
+
+(** ** the division: [sum / len as f64] is finite too *)
+Lemma format_small_int (n : Z) : (0 <= n < 2^26)%Z -> generic_format radix2 (SpecFloat.fexp 53 1024) (IZR n).
+Proof.
+  intros Hn. replace (IZR n) with (F2R (Float radix2 n 0)) by (unfold F2R; simpl; ring).
+  apply generic_format_F2R. intros Hn0. unfold cexp, SpecFloat.fexp.
+  assert (Hm : (mag radix2 (F2R (Float radix2 n 0)) <= 26)%Z).
+  { replace (F2R (Float radix2 n 0)) with (IZR n) by (unfold F2R; simpl; ring).
+    apply mag_le_bpow. apply IZR_neq; lia. rewrite <- abs_IZR. change (bpow radix2 26) with (IZR (2^26)). apply IZR_lt. lia. }
+  unfold SpecFloat.emin. simpl Fexp. lia.
+Qed.
+
+Lemma of_N_value (n : N) : (Z.of_N n < 2^26)%Z -> fin (of_N n) = true /\ R_ (of_N n) = IZR (Z.of_N n).
+Proof.
+  intros Hn. unfold of_N, R_.
+  pose proof (binary_normalize_correct 53 1024 eq_refl eq_refl mode_NE (Z.of_N n) 0 false) as H.
+  cbv zeta in H.
+  assert (E : F2R (Float radix2 (Z.of_N n) 0) = IZR (Z.of_N n)) by (unfold F2R; simpl; ring).
+  rewrite E in H.
+  assert (Hf : generic_format radix2 (SpecFloat.fexp 53 1024) (IZR (Z.of_N n))) by (apply format_small_int; lia).
+  rewrite round_generic in H by (try apply valid_rnd_N; exact Hf).
+  rewrite Rlt_bool_true in H.
+  - destruct H as (H1 & H2 & _). unfold fin. split; [exact H2|exact H1].
+  - rewrite <- abs_IZR. change (bpow radix2 1024) with (IZR (2^1024)). apply IZR_lt. rewrite Z.abs_eq by lia.
+    assert (2^26 < 2^1024)%Z by (apply Z.pow_lt_mono_r; lia). lia.
+Qed.
+
+Theorem mean_of_bounded_values_finite l :
+  l <> [] -> (Z.of_nat (length l) < 2^26)%Z ->
+  Forall (fun v => fin v = true /\ Rabs (R_ v) <= Bnd) l ->
+  fin (fmean l) = true.
+Proof.
+  intros Hne Hn Hl. unfold fmean.
+  destruct (fsum_finite l 0 fnzero) as [Fs Hs]; auto; try lia.
+  { unfold R_. cbn. rewrite Rabs_R0. lra. }
+  rewrite Z.add_0_l in Hs.
+  set (n := N.of_nat (length l)).
+  assert (Hn' : (Z.of_N n < 2^26)%Z) by (unfold n; rewrite nat_N_Z; exact Hn).
+  destruct (of_N_value n Hn') as [Fn Rn].
+  assert (Hpos : (1 <= Z.of_N n)%Z). { unfold n. rewrite nat_N_Z. destruct l; [congruence|cbn [length]; lia]. }
+  assert (Rn1 : 1 <= R_ (of_N n)). { rewrite Rn. apply IZR_le. exact Hpos. }
+  set (s := fsum l fnzero) in *.
+  pose proof (Bdiv_correct 53 1024 prec_gt_0_53 prec_lt_emax_53 mode_NE s (of_N n)) as H.
+  assert (Hnz : B2R (of_N n) <> 0) by (unfold R_ in Rn1; lra).
+  specialize (H Hnz).
+  assert (Hq : Rabs (B2R s / B2R (of_N n)) <= IZR (Z.of_nat (length l)) * Bnd).
+  { unfold Rdiv. rewrite Rabs_mult. rewrite Rabs_Rinv by exact Hnz.
+    unfold R_ in *. rewrite (Rabs_pos_eq (B2R (of_N n))) by lra.
+    apply Rle_trans with (Rabs (B2R s) * 1).
+    - apply Rmult_le_compat_l; [apply Rabs_pos|]. rewrite <- Rinv_1. apply Rinv_le_contravar; lra.
+    - lra. }
+  assert (Hr : Rabs (round radix2 (SpecFloat.fexp 53 1024) (round_mode mode_NE) (B2R s / B2R (of_N n))) <= IZR (Z.of_nat (length l)) * Bnd).
+  { apply abs_round_le_generic; auto. apply fexp_correct. reflexivity. apply valid_rnd_N. apply format_kB. lia. }
+  rewrite Rlt_bool_true in H.
+  - destruct H as (_ & H2 & _). unfold fin, fdiv in *. rewrite H2. exact Fs.
+  - eapply Rle_lt_trans; [exact Hr|]. apply kB_lt_emax. lia.
+Qed.
